@@ -17,8 +17,8 @@ Judge(c) ==
     IF r.ok # c.ok THEN Report(c, IF r.ok THEN "spec accepts, code rejects" ELSE "spec rejects, code accepts", <<r.err>>)
     ELSE IF ~r.ok THEN TRUE
     ELSE IF r.ood THEN TRUE                              \* outside the model's domain: not judged
-    ELSE IF Len(c.q.pivot) = 0 /\ r.names # c.names THEN Report(c, "names", r.names)
-    ELSE IF Len(c.q.pivot) = 0 /\ r.types # c.types THEN Report(c, "types", r.types)
+    ELSE IF (Len(c.q.pivot) = 0 \/ r.names # <<>>) /\ r.names # c.names THEN Report(c, "names", r.names)
+    ELSE IF r.types # c.types THEN Report(c, "types", r.types)
     ELSE IF EncRows(r.rows) # c.out THEN Report(c, "rows", EncRows(r.rows))
     ELSE TRUE
 
